@@ -50,7 +50,14 @@ def tla_bool(b):
     return "TRUE" if b else "FALSE"
 
 
-def code_switches(repo=REPO):
+def _repo():
+    """/repo, or the private copy next to a scratch copy of /verif (bin/scratch)."""
+    cand = os.path.join(os.path.dirname(vlib.ROOT), "repo")
+    return cand if os.path.isdir(os.path.join(cand, "packages")) else REPO
+
+
+def code_switches(repo=None):
+    repo = repo or _repo()
     """The explorer mirrors the tree it is checked against: read the code-dependent switches from the source."""
     sch = open(os.path.join(repo, "packages/vicinal/src/scheduler.rs")).read()
     pool = open(os.path.join(repo, "packages/vicinal/src/pool.rs")).read()
@@ -147,7 +154,10 @@ def trace_bounds(recs):
 
 def judge_file(path):
     recs = read_ndjson(path)
-    ok, rejects, tr = validate_trace(D, "Trace_Vicinal", path, cfg="Trace_Vicinal.cfg", timeout=1500, env=trace_bounds(recs))
+    # (a cfg name per trace file: vlib derives TLC's metadir from the cfg name, and validations may run concurrently)
+    cfg = os.path.join(os.path.dirname(path), "Trace_Vicinal_%s.cfg" % os.path.basename(path).replace(".", "_"))
+    open(cfg, "w").write(open(os.path.join(D, "Trace_Vicinal.cfg")).read())
+    ok, rejects, tr = validate_trace(D, "Trace_Vicinal", path, cfg=cfg, timeout=1500, env=trace_bounds(recs))
     return recs, ok, rejects, tr
 
 
